@@ -775,6 +775,7 @@ def scanner_literal_agreement(chk, rid):
   ps = FnView(repo, 'parse.ParseString')
   decoding_quotes = set()
   raw_quotes = set()
+  decoders = []
   for n, r in ps.returns():
     if r.value is None:
       continue
@@ -783,12 +784,31 @@ def scanner_literal_agreement(chk, rid):
       if val and isinstance(e, ast.Compare) and isinstance(e.ops[0], ast.Eq) and \
           norm(e.left) in ('s[0]', 's[:3]') and const_str(e.comparators[0]):
         quotes.add(const_str(e.comparators[0]))
-    decodes = any(isinstance(c, ast.Call) and call_tail(c) == 'literal_eval'
-                  for c in ast.walk(r.value))
+    value = ps.expand(r.value, 3)
+    calls = [c for c in ast.walk(value) if isinstance(c, ast.Call)]
+    decodes = bool(calls)
     (decoding_quotes if decodes else raw_quotes).update(quotes)
+    for c in calls:
+      if call_tail(c) == 'literal_eval':
+        decoders.append(('python-literal', c, n))
+      elif any(const_str(x) in ('unicode_escape', 'unicode-escape', 'string_escape',
+                                'raw_unicode_escape') for x in ast.walk(c)):
+        decoders.append(('latin1-codec', c, n))
+      elif call_tail(c) not in ('dict', 'str', 'HeritageAwareString'):
+        decoders.append(('unknown', c, n))
   if not decoding_quotes or not raw_quotes:
     raise AnalysisError('ParseString: literal forms not recognised (%s / %s)' % (
         decoding_quotes, raw_quotes))
+  unknown = [c for k, c, n in decoders if k == 'unknown']
+  if unknown:
+    raise AnalysisError('ParseString: decoder `%s` is not one this rule knows'
+                        % norm(unknown[0], 60))
+  lossy = [c for k, c, n in decoders if k == 'latin1-codec']
+  chk.ob(rid, not lossy, None,
+         'escaped literals are decoded with Python literal semantics for every character',
+         'the *_escape codecs read their input as Latin-1: `%s` turns every non-ASCII '
+         'character of a string literal into mojibake before it reaches the SQL'
+         % (norm(lossy[0], 60) if lossy else ''), fi=ps.fi, node=lossy[0] if lossy else None)
   chk.ob(rid, escaping_states == decoding_quotes, None,
          'scanner screens backslash exactly in the quote kinds ParseString decodes (%s)'
          % ' '.join(sorted(decoding_quotes)),
